@@ -98,7 +98,12 @@ def gen_stream(rng):
     seeds = [rng.randbytes(32).hex() for _ in range(N_KEYS)]
     pool = keypool(seeds)
     subs = rng.choice([["storage"], ["storage"], ["storage"], ["storage", "helper"], []])
-    seq = [rng.randrange(1, 50) for _ in range(N_KEYS)]
+    # first sequence number of each announcer: regularly 0, small, negative or huge
+    seq = [rng.choice([0, 0, 0, 1, 2, -1, -7, 2**63, 10**30, rng.randrange(1, 50)]) for _ in range(N_KEYS)]
+    started = [False] * N_KEYS
+    # a "stuck" announcer never raises its sequence number after the first announcement: everything it sends later
+    # (equal / lower / missing / non-integer seqnum, different content) must be refused
+    stuck = [rng.random() < 0.4 for _ in range(N_KEYS)]
     sent = [[] for _ in range(N_KEYS)]      # honest wires per key
     allw = []
 
@@ -126,9 +131,13 @@ def gen_stream(rng):
         meta = {"kind": kind, "signer": k, "claimed": k, "intact": True}
         if kind in ("replay", "old") and not sent[k]:
             kind = meta["kind"] = "new"
+        if kind == "new" and started[k] and stuck[k]:
+            kind = meta["kind"] = rng.choice(["same-seq", "lower-seq", "weird-seq", "weird-seq"])
         if kind == "new":
-            seq[k] += rng.choice([1, 1, 2, 10])
-            w = honest(k, base_ann(k, seq[k], rng.choice(["storage", "storage", "storage", "helper"])))
+            if started[k]:
+                seq[k] += rng.choice([1, 1, 2, 10])
+            started[k] = True
+            w = honest(k, base_ann(k, seq[k], rng.choice(["storage", "storage", "storage", "storage", "helper"])))
             sent[k].append(w)
         elif kind == "replay":
             w = list(sent[k][-1])
@@ -139,14 +148,16 @@ def gen_stream(rng):
         elif kind == "lower-seq":
             w = honest(k, dict(base_ann(k, seq[k] - rng.choice([1, 2, 30])), y=rng.randrange(1000)))
         elif kind == "weird-seq":
-            v = rng.choice([None, "MISSING", "7", 2.5, seq[k] + 0.5, float(seq[k] + 3), True, False, [1], {"a": 1}, 10**30, -5,
-                            float("inf"), float("-inf"), "abc"])
+            v = rng.choice([None, "MISSING", "MISSING", "7", 2.5, seq[k] + 0.5, float(seq[k] + 3), float(seq[k]), -0.5, True, False, [1],
+                            {"a": 1}, 10**30, -5, float("inf"), float("-inf"), "abc", str(seq[k] + 1)])
             d = base_ann(k, None)
             if v != "MISSING":
                 d["seqnum"] = v
             d["y"] = rng.randrange(1000)
             w = honest(k, d)
-            sent[k].append(w)
+            if not (stuck[k] and started[k]):
+                sent[k].append(w)
+                started[k] = True
         elif kind == "other-service":
             w = honest(k, base_ann(k, seq[k] + 1, rng.choice(["stub_client", "other", 5, None, ["storage"]])))
         elif kind == "wrong-key":
@@ -453,18 +464,37 @@ def run_stream(ctx, case, workdir, n):
                 ctx.violation("an announcement was delivered that no owner of the attributed key signed", case, "accepted-unverified")
     store = ["%d.%d:%d" % (T.svcid(idx[0]), kid(idx[1]), T.content(v[0])) for idx, v in A._inbound_announcements.items()]
     out = "|".join(outs) + "#S=" + (",".join(store) or "-")
-    # ---- monitor (b): per index, a replacement carries a strictly higher sequence number
+    # ---- monitor (b): "for each (service, key) it never replaces a stored announcement with one carrying an equal or lower
+    # sequence number" — evaluated on the delivered sequence (every store is a delivery), independently of the model.  A stored
+    # announcement that carries a number as seqnum may only be replaced by one carrying a strictly greater number; one that
+    # carries none / not a number does not carry a higher one either.  Stored announcements without a numeric seqnum: no demand.
+    num = lambda v: isinstance(v, (int, float)) and v == v
     for name, sink in (("batched", sinkA), ("single", sinkB)):
         last = {}
         for (key_s, ann) in sink:
             idx = (str(ann["service-name"]), key_s)
-            if idx in last:
-                o, nw = last[idx].get("seqnum"), ann.get("seqnum")
-                num = lambda v: isinstance(v, (int, float)) and v == v
-                if num(o) and num(nw) and nw <= o:
-                    ctx.violation("stored announcement replaced by one with an equal or lower sequence number (%r -> %r)" % (o, nw),
-                                  case, "replaced-with-not-higher-seqnum")
+            if idx in last and "seqnum" in last[idx] and num(last[idx]["seqnum"]):
+                o = last[idx]["seqnum"]
+                ocls = "0" if o == 0 else "negative" if o < 0 else "huge" if o >= 2**63 else "non-integer-number" if not isinstance(o, int) else "positive"
+                if "seqnum" not in ann:
+                    ncls = "missing"
+                elif not num(ann["seqnum"]):
+                    ncls = "not-a-number:" + type(ann["seqnum"]).__name__
+                elif ann["seqnum"] == o:
+                    ncls = "equal"
+                elif ann["seqnum"] < o:
+                    ncls = "lower"
+                else:
+                    ncls = None
+                if ncls:
+                    ctx.violation("stored announcement (seqnum %r) replaced by one that does not carry a higher sequence number (%s)"
+                                  % (o, ann.get("seqnum", "<missing>")), case, "replaced-by-not-higher-seqnum:%s->%s" % (ocls, ncls))
+                    ctx.count("seqnum-rule-broken")
             last[idx] = ann
+    for idx, v in A._inbound_announcements.items():
+        s0 = v[0].get("seqnum")
+        ctx.count("stored-seqnum:" + ("missing" if "seqnum" not in v[0] else "0" if (num(s0) and s0 == 0) else "negative" if (num(s0) and s0 < 0)
+                                       else "huge" if (num(s0) and s0 >= 2**63) else "other-number" if num(s0) else "not-a-number"))
     # ---- monitor (c): a bad announcement does not stop the others of its batch
     same = ([(k, T.content(a)) for (k, a) in sinkA] == [(k, T.content(a)) for (k, a) in sinkB] and
             [(i, T.content(v[0])) for i, v in A._inbound_announcements.items()] == [(i, T.content(v[0])) for i, v in B._inbound_announcements.items()])
@@ -482,6 +512,10 @@ def run_stream(ctx, case, workdir, n):
 CORPUS = [
     # DESIGN §3 probe: UnknownKeyError (no v0- signature prefix) in front of a good announcement
     {"bad": "sigprefix"}, {"bad": "keyb32"}, {"bad": "notjson"}, {"bad": "nosvc"},
+    # the seqnum rule with a stored sequence number 0 / negative / huge: none of the followers may replace it
+    {"first": 0, "then": [0, -1, "MISSING", "1", 0.0, None, True]},
+    {"first": -3, "then": [-3, -4, "MISSING", 2.5]},
+    {"first": 2**63, "then": [2**63, 2**63 - 1, 0, "MISSING", float(2**63)]},
 ]
 
 
@@ -494,6 +528,16 @@ def corpus_case(spec):
     def honest(k, d):
         msg = json.dumps(d).encode("utf-8") if not isinstance(d, bytes) else d
         return [msg, b"v0-" + b2a(ed25519.sign_data(pool[k][0], msg)), pool[k][2]]
+    if "first" in spec:
+        ok = {"kind": "new", "signer": 0, "claimed": 0, "intact": True}
+        batches = [[{"w": [enc(f) for f in honest(0, {"service-name": "storage", "seqnum": spec["first"], "nickname": "a", "x": 0})],
+                     "meta": ok}]]
+        for j, v in enumerate(spec["then"]):
+            d = {"service-name": "storage", "nickname": "a", "x": j + 1}
+            if v != "MISSING" or isinstance(v, bool):
+                d["seqnum"] = v
+            batches.append([{"w": [enc(f) for f in honest(0, d)], "meta": dict(ok, kind="weird-seq")}])
+        return {"seeds": seeds, "subs": ["storage"], "batches": batches}
     good = honest(0, {"service-name": "storage", "seqnum": 1, "nickname": "a"})
     bad = honest(1, {"service-name": "storage", "seqnum": 1, "nickname": "b"})
     meta = {"kind": "bad-encoding", "signer": 1, "claimed": 1, "intact": False}
@@ -520,7 +564,7 @@ def run(ctx):
             cases = [ctx.replay["case"]]
         else:
             cases = [corpus_case(s) for s in CORPUS]
-            for _ in range(ctx.budget(250, 8000)):
+            for _ in range(ctx.budget(600, 8000)):
                 cases.append(gen_stream(ctx.rng))
         impl, lines = [], []
         for n, case in enumerate(cases):
